@@ -96,3 +96,113 @@ pub proof fn lemma_revn_bit(v: nat, j: nat, i: nat)
         lemma_revn_bit(v, (j - 1) as nat, (i - 1) as nat);
     }
 }
+
+// ---- the decoding tree (array layout of calculate_huffman_code_tree) ----
+/// index at which the nodes of depth d start: the levels are laid out deepest first
+pub open spec fn lstart(l: Seq<u8>, d: int) -> int
+    decreases 16 - d
+{
+    if d >= 15 { 0 } else { lstart(l, d + 1) + slots(l, d + 1) }
+}
+/// number of symbols with a length of at least d
+pub open spec fn cnt_from(l: Seq<u8>, d: int) -> int
+    decreases 16 - d
+{
+    if d >= 16 { 0 } else { cnt_all(l, d) + cnt_from(l, d + 1) }
+}
+/// `t` is the tree calculate_huffman_code_tree builds for l: depth d occupies t[lstart(d) .. lstart(d) + slots(d)], first the
+/// leaves of length d in symbol order (entry -1 - symbol), then the internal nodes (entry = index of the pair of children)
+pub open spec fn tree_ok(t: Seq<i32>, l: Seq<u8>) -> bool {
+    &&& kraft_ok(l)
+    &&& t.len() == lstart(l, 0)
+    &&& forall|n: int| 0 <= n < l.len() && l[n] > 0 ==> #[trigger] t[lstart(l, l[n] as int) + cnt(l, l[n] as int, n)] == -1 - n
+    &&& forall|d: int, q: int| 1 <= d <= 15 && 0 <= q < slots(l, d) - cnt_all(l, d)
+            ==> #[trigger] t[lstart(l, d) + cnt_all(l, d) + q] == lstart(l, d + 1) + 2 * q
+}
+
+pub proof fn lemma_lstart_total(l: Seq<u8>, d: int)
+    requires kraft_ok(l), 0 <= d <= 15,
+    ensures lstart(l, d) == 2 * cnt_from(l, d + 1) - slots(l, d + 1), 0 <= lstart(l, d),
+    decreases 16 - d
+{
+    lemma_slots_nonneg(l, d + 1);
+    if d < 15 {
+        lemma_lstart_total(l, d + 1);
+        lemma_slots_nonneg(l, d + 2);
+        lemma_cnt_nonneg(l, d + 1, l.len() as int);
+    } else {
+        assert(cnt_from(l, 16) == 0);
+        assert(slots(l, 16) == 0);
+    }
+}
+/// beyond the longest code all levels are empty
+pub proof fn lemma_slots_above_max(l: Seq<u8>, m: int, d: int)
+    requires kraft_ok(l), 0 <= m <= 15, forall|i: int| 0 <= i < l.len() ==> #[trigger] l[i] <= m, m < d <= 16,
+    ensures slots(l, d) == 0, cnt_all(l, d) == 0 || d == 16,
+    decreases 16 - d
+{
+    if d < 16 {
+        lemma_cnt_zero_above(l, m, d, l.len() as int);
+        lemma_slots_above_max(l, m, d + 1);
+        lemma_slots_nonneg(l, d);
+    }
+}
+pub proof fn lemma_cnt_zero_above(l: Seq<u8>, m: int, d: int, n: int)
+    requires forall|i: int| 0 <= i < l.len() ==> #[trigger] l[i] <= m, m < d, 0 <= n <= l.len(),
+    ensures cnt(l, d, n) == 0,
+    decreases n
+{ if n > 0 { lemma_cnt_zero_above(l, m, d, n - 1); } }
+/// every leaf position of a level belongs to exactly one symbol
+pub proof fn lemma_leaf_symbol(l: Seq<u8>, d: int, p: int, n: int) -> (s: int)
+    requires 1 <= d <= 15, 0 <= n <= l.len(), 0 <= p < cnt(l, d, n),
+    ensures 0 <= s < n, l[s] as int == d, cnt(l, d, s) == p,
+    decreases n
+{
+    if l[n - 1] as int == d && cnt(l, d, n - 1) == p { n - 1 } else { lemma_leaf_symbol(l, d, p, n - 1) }
+}
+
+/// the value the writer stores for symbol n as a u16 sequence (what calc_huffman_codes returns)
+pub open spec fn canon(l: Seq<u8>) -> Seq<u16> { Seq::new(l.len(), |n: int| canon_at(l, n) as u16) }
+/// `tree` is what calculate_huffman_code_tree returns for the code lengths l (of an alphabet that fits u16 symbols)
+pub open spec fn tree_for(tree: Seq<i32>, l: Seq<u8>) -> bool { tree_ok(tree, l) && l.len() <= 65535 }
+/// the bits of symbol s as they appear in the stream (the canonical code, most significant bit first)
+pub open spec fn sym_bits(l: Seq<u8>, s: int) -> Seq<bool> { lsb_bits(canon(l)[s] as nat, l[s] as nat) }
+
+pub proof fn lemma_canon_at_bound(l: Seq<u8>, n: int)
+    requires 0 <= n < l.len(), l[n] < 16,
+    ensures canon_at(l, n) < 65536, canon(l)[n] as nat == canon_at(l, n),
+{
+    lemma2_to64();
+    if l[n] != 0 {
+        lemma_revn_bound((nc(l, l[n] as int) + cnt(l, l[n] as int, n)) as nat, l[n] as nat);
+        lemma_pow2_le(l[n] as nat, 15);
+    }
+}
+/// writing the reversed code LSB first sends the code MSB first
+pub proof fn lemma_revn_msb(v: nat, k: nat)
+    ensures lsb_bits(revn(v, k), k) == msb_bits(v, k),
+{
+    assert forall|i: int| 0 <= i < k implies lsb_bits(revn(v, k), k)[i] == msb_bits(v, k)[i] by {
+        lemma_revn_bit(v, k, i as nat);
+    }
+    assert(lsb_bits(revn(v, k), k) =~= msb_bits(v, k));
+}
+/// one more bit read: the MSB-first string grows at the end
+pub proof fn lemma_msb_push(v: nat, j: nat, b: bool)
+    ensures msb_bits(2 * v + (if b { 1nat } else { 0nat }), j + 1) == msb_bits(v, j).push(b),
+{
+    let v2 = 2 * v + (if b { 1nat } else { 0nat });
+    assert forall|i: int| 0 <= i < j + 1 implies msb_bits(v2, j + 1)[i] == msb_bits(v, j).push(b)[i] by {
+        if i < j {
+            // bit (j - i) of v2 is bit (j - 1 - i) of v
+            lemma_bit_of_half(v2, (j - 1 - i) as nat);
+            assert(v2 / 2 == v);
+        } else {
+            lemma2_to64();
+            assert(pow2(0) == 1);
+            assert(v2 / 1 == v2);
+            assert(bit_of(v2, 0) == (v2 % 2 == 1));
+        }
+    }
+    assert(msb_bits(v2, j + 1) =~= msb_bits(v, j).push(b));
+}
